@@ -179,7 +179,11 @@ def main():
                                         "+ extracted OCaml model driver (driver/)"}],
          "checks": checks,
          "not_applicable": na,
-         "notes": "All checks: bin/check <id> --tier quick|thorough [--replay file]. See DESIGN.md."}
+         "notes": "All checks: bin/check <id> --tier quick|thorough [--replay file]. See DESIGN.md. When the sources a property's model "
+                  "covers differ from the audited baseline (lib/source_baseline.json) a quick command makes further search passes after an "
+                  "OK first pass (denser generators / further seeds / a differential search whose candidates the correspondence decides) "
+                  "and may take a few minutes; on the unchanged tree nothing is escalated. VERIF_NO_ESCALATE=1 / VERIF_NO_FUZZ=1 switch "
+                  "the extra passes / the differential search off."}
     json.dump(m, open(os.path.join(VERIF, "MANIFEST.json"), "w"), indent=1)
     print("MANIFEST.json: %d checks, %d not_applicable" % (len(checks), len(na)))
 
